@@ -190,3 +190,239 @@ Proof.
   split; [lazy; reflexivity|]. split; [lazy; reflexivity|]. repeat (split; [lazy; reflexivity|]).
   lazy. intros H. decompose [and] H. discriminate.
 Qed.
+
+(* ------------------------------------------------------------------------------------------------------
+   C06 over whole runs, continued (Proofs/RunWindow.v): EXACTNESS of the send rule, iteration by iteration, the
+   restart of every round at first_ttl, round numbers, and the ECMP reset as the only way beyond the distance.
+   [allowed c g] is the send rule evaluated on the ghost of a log prefix (it never looks at the tracer state).
+   An ITERATION of the loop shows in the log as the part between two consecutive clock readings of update_round
+   ([marker]: OUpdate / OPublish); [boundary l1] says that an iteration starts after the prefix l1. *)
+From TV Require Import Proofs.RunWindow.
+
+(* the rule in plain words: the target has not answered in this round, the next ttl of the round is at most max_ttl,
+   and it is at most the established target distance or - while that is unknown - at most max_inflight beyond the
+   farthest hop that has answered in this round (first_ttl - 1 if none has) *)
+Theorem c06_rule_reads : forall c g,
+  allowed c g = true <->
+  (found (g_A g) = false /\ next_ttl c (g_S g) <= max_ttl c /\
+   match g_dist g with
+   | Some d => next_ttl c (g_S g) <= d
+   | None => next_ttl c (g_S g) - (match farthest (g_A g) with Some m => m | None => first_ttl c - 1 end) <= max_inflight c
+   end).
+Proof. exact allowed_reads_lemma. Qed.
+
+(* the rule of the log IS the decision of the code: at the end of every run that did not fail (so at every iteration
+   boundary) Strategy::send_request's condition (can_send: !target_found && ttl <= max_ttl && can_send_ttl) does not
+   fault and evaluates to [allowed] of the ghost of the log *)
+Theorem c06_rule_is_can_send : forall c t0 is ev o sf, Accept c -> run c t0 is = (ev, o, sf) ->
+  (forall e, o <> Failed_with e) ->
+  can_send c sf = Ok (allowed c (ghost_after c t0 (run_log c t0 is))).
+Proof. exact rule_is_can_send_lemma. Qed.
+
+(* the grammar of every run: the log is a sequence of complete iterations - the sends of the iteration, EXACT for the
+   ghost at its start ([batch_exact]: nothing if the rule forbids the next ttl; otherwise exactly one probe of the
+   next ttl that was not abandoned, preceded only by abandoned attempts (address in use) of the same ttl; at most
+   one probe unless TCP), then at most one delivery, then the clock reading of update_round - possibly followed by one
+   iteration cut short by an error or the end of the input ([batch_partial]) *)
+Theorem c06_run_iterations : forall c t0 is, Accept c -> iter_log c (g_init t0) (run_log c t0 is).
+Proof. exact run_log_iter_lemma. Qed.
+
+(* EXACTNESS at any complete iteration of any run, wherever it lies in the log *)
+Theorem c06_iteration_exact : forall c t0 is l1 seg m l2, Accept c ->
+  run_log c t0 is = l1 ++ seg ++ m :: l2 -> boundary l1 -> no_marker seg -> marker m ->
+  exists B rcv, seg = osends B ++ rcv /\ batch_exact c (ghost_after c t0 l1) B /\ recv_part rcv.
+Proof. exact c06_iteration_exact_lemma. Qed.
+
+(* liveness of the window: whenever the rule allows the next ttl at the start of an iteration that runs to its clock
+   reading (no send / receive error), a probe of exactly that ttl IS handed to the network in that iteration, it is not
+   abandoned, and only abandoned attempts (TCP, address in use) precede it *)
+Theorem c06_window_liveness : forall c t0 is l1 seg m l2, Accept c ->
+  run_log c t0 is = l1 ++ seg ++ m :: l2 -> boundary l1 -> no_marker seg -> marker m ->
+  allowed c (ghost_after c t0 l1) = true ->
+  exists B0 p o rcv, seg = osends B0 ++ OSend p o :: rcv /\ Forall inuse B0 /\ o <> AddressInUseO /\
+    p_ttl p = next_ttl c (g_S (ghost_after c t0 l1)) /\ recv_part rcv.
+Proof. exact c06_liveness_run_lemma. Qed.
+
+(* and the other direction: when the rule forbids the next ttl the iteration hands nothing to the network (the
+   iteration consists of at most one delivery) *)
+Theorem c06_window_silence : forall c t0 is l1 seg m l2, Accept c ->
+  run_log c t0 is = l1 ++ seg ++ m :: l2 -> boundary l1 -> no_marker seg -> marker m ->
+  allowed c (ghost_after c t0 l1) = false -> recv_part seg.
+Proof. exact c06_silence_run_lemma. Qed.
+
+(* so the next ttl of the round moves by exactly one in an iteration the rule allows and stays in one it forbids
+   (iterations that leave the round open) *)
+Theorem c06_ttl_step : forall c t0 is l1 seg now l2, Accept c ->
+  run_log c t0 is = l1 ++ seg ++ OUpdate now :: l2 -> boundary l1 -> no_marker seg ->
+  next_ttl c (g_S (ghost_after c t0 (l1 ++ seg ++ [OUpdate now]))) =
+  next_ttl c (g_S (ghost_after c t0 l1)) + (if allowed c (ghost_after c t0 l1) then 1 else 0).
+Proof. exact c06_ttl_step_lemma. Qed.
+
+(* the first probe of every run carries first_ttl ... *)
+Theorem c06_first_probe_of_run : forall c t0 is mid p o l2, Accept c ->
+  run_log c t0 is = mid ++ OSend p o :: l2 -> no_send mid -> p_ttl p = first_ttl c.
+Proof. exact c06_first_probe_lemma. Qed.
+
+(* ... and every round starts again at first_ttl: the first probe handed to the network after a round is published
+   carries first_ttl and the next round number, whatever was learnt before *)
+Theorem c06_round_restart : forall c t0 is l1 r now adv mid p o l2, Accept c ->
+  run_log c t0 is = l1 ++ OPublish r now adv :: mid ++ OSend p o :: l2 -> no_send mid -> no_publish mid ->
+  p_ttl p = first_ttl c /\ p_round p = g_round (ghost_after c t0 l1) + 1.
+Proof. exact c06_round_restart_lemma. Qed.
+
+(* the round number a probe carries is the number of rounds published before it was sent *)
+Theorem c06_round_number : forall c t0 is l1 p o l2, Accept c ->
+  run_log c t0 is = l1 ++ OSend p o :: l2 -> p_round p = Z.of_nat (npub l1).
+Proof. exact c06_round_number_lemma. Qed.
+
+(* the ECMP rule, exactly: after the target has answered a probe p, a probe of a larger ttl goes out - in that round
+   or in ANY later one, on any path - only if in between a host that is not the target has genuinely answered a probe
+   whose ttl is at or beyond the distance established at that moment ([reset_in]); complete_probe then forgets the
+   distance (target_ttl = None) and the in-flight window applies again *)
+Theorem c06_beyond_distance_needs_reset : forall c t0 is l1 r p sr l2 q o l3, Accept c ->
+  run_log c t0 is = l1 ++ ORecv r :: l2 ++ OSend q o :: l3 ->
+  genuine c (g_S (ghost_after c t0 l1)) (g_A (ghost_after c t0 l1)) r = Some (p, sr) -> sr_is_target sr = true ->
+  p_ttl q <= p_ttl p \/ reset_in c (p_ttl p) (ghost_after c t0 (l1 ++ [ORecv r])) l2.
+Proof. exact c06_beyond_distance_lemma. Qed.
+
+(* the same from any point where the distance d is established (e.g. the start of a later round): no probe above d
+   until such a reset *)
+Theorem c06_known_distance_bounds : forall c t0 is l1 d mid q o l3, Accept c ->
+  run_log c t0 is = l1 ++ mid ++ OSend q o :: l3 ->
+  g_dist (ghost_after c t0 l1) = Some d ->
+  p_ttl q <= d \/ reset_in c d (ghost_after c t0 l1) mid.
+Proof. exact c06_known_distance_bounds_lemma. Qed.
+
+(* non-vacuity, on the example runs of Proofs/RunLogProps.v.
+   liveness: the second iteration of the example run starts after [send ttl 1; update 1]; the rule allows ttl 2 and
+   the iteration is [send ttl 2; delivery] *)
+Example c06_ex_liveness_instance :
+  let L := run_log rl_ex_cfg 0 rl_ex_ins in
+  exists l1 seg m l2 p o r, L = l1 ++ seg ++ m :: l2 /\ boundary l1 /\ no_marker seg /\ marker m /\
+    allowed rl_ex_cfg (ghost_after rl_ex_cfg 0 l1) = true /\ seg = [OSend p o; ORecv r] /\ p_ttl p = 2.
+Proof.
+  intros L. exists (firstn 2 L), (firstn 2 (skipn 2 L)), (OUpdate 2), (skipn 5 L). eexists _, _, _.
+  split; [vm_compute; reflexivity|].
+  split; [right; exists (firstn 1 L), (OUpdate 1); split; [vm_compute; reflexivity|exact I]|].
+  split; [vm_compute; repeat constructor; intros []|].
+  split; [exact I|]. split; [vm_compute; reflexivity|]. split; vm_compute; reflexivity.
+Qed.
+
+(* silence: after the target answered ttl 3 in round 0 the iteration between the readings 4 and 8 sends nothing; and
+   in round 1, where the distance 3 is known, the iteration between the readings 18 and 40 sends nothing *)
+Example c06_ex_silence_instance :
+  let L := run_log rl_ex_cfg 0 rl_ex_ins in
+  (L = firstn 11 L ++ [] ++ OUpdate 8 :: skipn 12 L /\ boundary (firstn 11 L) /\
+   allowed rl_ex_cfg (ghost_after rl_ex_cfg 0 (firstn 11 L)) = false /\
+   found (g_A (ghost_after rl_ex_cfg 0 (firstn 11 L))) = true) /\
+  (L = firstn 20 L ++ [] ++ OUpdate 40 :: skipn 21 L /\ boundary (firstn 20 L) /\
+   allowed rl_ex_cfg (ghost_after rl_ex_cfg 0 (firstn 20 L)) = false /\
+   found (g_A (ghost_after rl_ex_cfg 0 (firstn 20 L))) = false /\
+   g_dist (ghost_after rl_ex_cfg 0 (firstn 20 L)) = Some 3 /\
+   next_ttl rl_ex_cfg (g_S (ghost_after rl_ex_cfg 0 (firstn 20 L))) = 4).
+Proof.
+  intros L. split.
+  - split; [vm_compute; reflexivity|].
+    split; [right; exists (firstn 10 L), (OUpdate 4); split; [vm_compute; reflexivity|exact I]|].
+    split; vm_compute; reflexivity.
+  - split; [vm_compute; reflexivity|].
+    split; [right; exists (firstn 19 L), (OUpdate 18); split; [vm_compute; reflexivity|exact I]|].
+    repeat split; vm_compute; reflexivity.
+Qed.
+
+(* TCP: the first iteration of the TCP example run is exact with two abandoned attempts before the ttl 2 probe *)
+Example c06_ex_tcp_iteration :
+  let L := run_log rl_ex_tcp_cfg 0 rl_ex_tcp_ins in
+  exists B0 p l2, L = [] ++ (osends B0 ++ [OSend p Sent]) ++ OUpdate 1 :: l2 /\ boundary [] /\
+    allowed rl_ex_tcp_cfg (ghost_after rl_ex_tcp_cfg 0 []) = true /\
+    map (fun po => p_ttl (fst po)) B0 = [2; 2] /\ Forall inuse B0 /\ p_ttl p = 2.
+Proof.
+  intros L. eexists [(_, _); (_, _)], _, _. split; [vm_compute; reflexivity|]. split; [left; reflexivity|].
+  split; [vm_compute; reflexivity|]. split; [vm_compute; reflexivity|].
+  split; [repeat constructor|vm_compute; reflexivity].
+Qed.
+
+(* the round restart: round 1 of the example run starts with ttl 1 and number 1 *)
+Example c06_ex_restart_instance :
+  let L := run_log rl_ex_cfg 0 rl_ex_ins in
+  exists l1 r now adv p o l2, L = l1 ++ OPublish r now adv :: [] ++ OSend p o :: l2 /\
+    p_ttl p = 1 /\ p_round p = 1 /\ npub (l1 ++ [OPublish r now adv]) = 1%nat.
+Proof.
+  intros L. exists (firstn 13 L). eexists _, _, _, _, _. exists (skipn 15 L).
+  split; [vm_compute; reflexivity|]. repeat split; vm_compute; reflexivity.
+Qed.
+
+(* the reset of c06_beyond_distance_needs_reset, on the unstable example: the target answered ttl 3, then a router
+   answered the ttl 4 probe (4 >= 3): the distance is forgotten and round 1 sends ttl 4 *)
+Example c06_ex_reset_instance :
+  let L := run_log rl_ex_cfg 0 rl_ex_unstable_ins in
+  exists l1 r p sr l2 q o l3, L = l1 ++ ORecv r :: l2 ++ OSend q o :: l3 /\
+    genuine rl_ex_cfg (g_S (ghost_after rl_ex_cfg 0 l1)) (g_A (ghost_after rl_ex_cfg 0 l1)) r = Some (p, sr) /\
+    sr_is_target sr = true /\ p_ttl p = 3 /\ p_ttl q = 4 /\
+    reset_in rl_ex_cfg 3 (ghost_after rl_ex_cfg 0 (l1 ++ [ORecv r])) l2.
+Proof.
+  intros L. exists (firstn 9 L), (rl_ex_er 4 102). eexists _, _. exists (firstn 12 (skipn 10 L)). eexists _, _. exists (skipn 23 L).
+  split; [lazy; reflexivity|]. split; [lazy; reflexivity|]. repeat (split; [lazy; reflexivity|]).
+  exists [OUpdate 4], (rl_ex_te 5 103 [9;9;9;4]), (skipn 12 (firstn 22 L)). eexists _, _, 3.
+  split; [vm_compute; reflexivity|]. cbv zeta. split; [vm_compute; reflexivity|].
+  split; [vm_compute; reflexivity|]. split; [vm_compute; reflexivity|]. split; vm_compute; discriminate.
+Qed.
+
+(* the in-flight window applies only while the distance is unknown (as the property says): in round 1 of the example
+   run (distance 3 carried over, max_inflight 2, nothing has answered) the ttl 3 probe is 3 beyond first_ttl - 1 *)
+Example c06_ex_window_only_while_unknown :
+  let L := run_log rl_ex_cfg 0 rl_ex_ins in
+  exists p o, L = firstn 18 L ++ OSend p o :: skipn 19 L /\ p_ttl p = 3 /\
+    g_dist (ghost_after rl_ex_cfg 0 (firstn 18 L)) = Some 3 /\
+    farthest (g_A (ghost_after rl_ex_cfg 0 (firstn 18 L))) = None /\
+    max_inflight rl_ex_cfg < p_ttl p - (first_ttl rl_ex_cfg - 1).
+Proof.
+  intros L. eexists _, _. split; [vm_compute; reflexivity|]. repeat split; vm_compute; reflexivity.
+Qed.
+
+(* liveness over a whole stretch, in closed form: take any stretch [mid] of complete iterations (it starts and ends at
+   iteration boundaries) in which nothing is delivered and no round is published - n = [nupd mid] iterations.  If the
+   target has answered in this round nothing is sent; otherwise the next ttl t of the round advances by exactly one
+   per iteration until it passes the limit of the rule, [ttl_limit] = min max_ttl (established distance, or - while
+   unknown - farthest answered hop (first_ttl - 1 if none) + max_inflight), and then stays: the stretch sends exactly
+   the ttls t, t+1, ..., min (t+n-1) limit, neither fewer nor more *)
+Theorem c06_quiet_stretch : forall c t0 is l1 mid l2, Accept c ->
+  run_log c t0 is = l1 ++ mid ++ l2 -> boundary l1 -> boundary mid -> no_recv mid -> no_publish mid ->
+  let g := ghost_after c t0 l1 in
+  next_ttl c (g_S (ghost_after c t0 (l1 ++ mid))) =
+  if found (g_A g) then next_ttl c (g_S g)
+  else Z.max (next_ttl c (g_S g)) (Z.min (next_ttl c (g_S g) + Z.of_nat (nupd mid)) (ttl_limit c g + 1)).
+Proof. exact c06_quiet_stretch_lemma. Qed.
+
+(* round 1 of the example run: 5 silent iterations with the distance 3 known send ttl 1, 2, 3 and stall at 4 *)
+Example c06_ex_quiet_known_distance :
+  let L := run_log rl_ex_cfg 0 rl_ex_ins in
+  let l1 := firstn 14 L in let mid := firstn 8 (skipn 14 L) in
+  L = l1 ++ mid ++ skipn 22 L /\ boundary l1 /\ boundary mid /\ no_recv mid /\ no_publish mid /\
+  nupd mid = 5%nat /\ found (g_A (ghost_after rl_ex_cfg 0 l1)) = false /\
+  ttl_limit rl_ex_cfg (ghost_after rl_ex_cfg 0 l1) = 3 /\
+  next_ttl rl_ex_cfg (g_S (ghost_after rl_ex_cfg 0 (l1 ++ mid))) = 4.
+Proof.
+  intros L l1 mid. split; [vm_compute; reflexivity|].
+  split; [right; exists (firstn 13 L); eexists; split; [vm_compute; reflexivity|exact I]|].
+  split; [right; exists (firstn 7 mid), (OUpdate 41); split; [vm_compute; reflexivity|exact I]|].
+  split; [intros r Hin; vm_compute in Hin; repeat (destruct Hin as [Hin|Hin]; [discriminate|]); exact Hin|].
+  split; [intros r n a Hin; vm_compute in Hin; repeat (destruct Hin as [Hin|Hin]; [discriminate|]); exact Hin|].
+  repeat split; vm_compute; reflexivity.
+Qed.
+
+(* a silent first round (distance unknown, max_inflight 2): 4 iterations send ttl 1, 2 and stall at the window edge *)
+Example c06_ex_quiet_window :
+  let ins := [rl_ex_it Timeout 1; rl_ex_it Timeout 2; rl_ex_it Timeout 3; rl_ex_it Timeout 4] in
+  let L := run_log rl_ex_cfg 0 ins in
+  L = [] ++ L ++ [] /\ boundary L /\ no_recv L /\ no_publish L /\ nupd L = 4%nat /\
+  ttl_limit rl_ex_cfg (ghost_after rl_ex_cfg 0 []) = 2 /\
+  map (fun po => p_ttl (fst po)) (g_S (ghost_after rl_ex_cfg 0 ([] ++ L))) = [1; 2] /\
+  next_ttl rl_ex_cfg (g_S (ghost_after rl_ex_cfg 0 ([] ++ L))) = 3.
+Proof.
+  intros ins L. split; [rewrite app_nil_r; reflexivity|].
+  split; [right; exists (firstn 5 L), (OUpdate 4); split; [vm_compute; reflexivity|exact I]|].
+  split; [intros r Hin; vm_compute in Hin; repeat (destruct Hin as [Hin|Hin]; [discriminate|]); exact Hin|].
+  split; [intros r n a Hin; vm_compute in Hin; repeat (destruct Hin as [Hin|Hin]; [discriminate|]); exact Hin|].
+  repeat split; vm_compute; reflexivity.
+Qed.
